@@ -99,8 +99,12 @@ Apply(rep, e) ==
     ELSE IF e.ty = "deleted" THEN Deleted(rep, e.src)
     ELSE IF e.ty = "moved" THEN Moved(rep, e.src, e.dst, e.k)
     ELSE rep
-RECURSIVE ApplyAll(_, _, _)
-ApplyAll(rep, evs, i) == IF i > Len(evs) THEN rep ELSE ApplyAll(Apply(rep, evs[i]), evs, i + 1)
+\* left fold of Apply over evs[lo..hi], by halving (recursion depth log n: feeds of several hundred events occur)
+RECURSIVE Fold(_, _, _, _)
+Fold(rep, evs, lo, hi) == IF lo > hi THEN rep
+                          ELSE IF lo = hi THEN Apply(rep, evs[lo])
+                          ELSE LET mid == (lo + hi) \div 2 IN Fold(Fold(rep, evs, lo, mid), evs, mid + 1, hi)
+ApplyAll(rep, evs, i) == Fold(rep, evs, i, Len(evs))
 Depth1(rep) == {x \in rep : Len(x.p) = 1}
 ReplicaOK(start, evs, t, rec) ==
     LET have == ApplyAll(AsSet(start), evs, 1) IN
